@@ -81,9 +81,12 @@ def check_reinsert(prog: Program, L: Ledger, rule: str) -> None:
     mask_stores = [s for s in obj.stores if s[0][0] == "mask"]
     other = [s for s in obj.stores if s not in idx_stores and s not in mask_stores]
     src_txt = idx_stores[0][1] if idx_stores else ""
+    by_bool = [s for s in obj.stores if s[0][0] == "notmask" and s[0][1] == (p_idx,)]
+    hint = (f": the removed rows are written through a boolean mask of `{p_idx}` — numpy fills the True rows in ascending row order, not in the order of `{p_idx}`, so an unsorted index list comes back permuted"
+            if by_bool and not idx_stores else "")
     L.check(len(idx_stores) == 1, rule, f"reinsert_atoms:new[{p_idx}]", where1,
-            f"the rebuilt array receives {len(idx_stores)} stores under `{p_idx}` (stores: {[(s[0][:2], s[1][:40]) for s in obj.stores]})",
-            "re-inserted rows are not put back at the indices they were removed from", "indices-store")
+            f"the rebuilt array receives {len(idx_stores)} stores under `{p_idx}` (stores: {[(s[0][:2], s[1][:40]) for s in obj.stores]}){hint}",
+            "re-inserted rows are not put back at the indices they were removed from" + (f" (e.g. {p_idx} = [5, 2])" if hint else ""), "indices-store")
     if idx_stores:
         st = src_txt
         L.check(f"{p_new}.arrays.get({name}" in st or f"{p_new}.arrays[{name}]" in st or f"{p_new}.get_array({name}" in st, rule, "reinsert_atoms:source", f"{rel}:{idx_stores[0][2]}",
